@@ -113,7 +113,9 @@ func drawGrammarText(t *rapid.T) ([]byte, string, *gspec.Grammar) {
 	case k < 14:
 		return []byte(gspec.Pick(t, []string{"", "\n", "A", "A =", "A = ", "{", "{}", "{}\nA='a'", "A = 'a'", "A = B", "A = A", "A = 'a' A = 'b'", "A = %{x}", "A = 'a' //{x} 'b'", "=", "A 'x' = .", "A = [", "A = \"", "A = 'ab'", "A = []", "A = [^]", "A = ''", "A = [\\p{L]]", "A = [\\p{Greek]x]", "A = \"\\400\"", "A = 'a' {", "A = %{", "A = 'a' //{",
 			"A = %{x} //{x} B\nB = 'b'", "A = ( %{x} //{x} B ) 'a'\nB = 'b' / A", "A = %{x} //{x, y} %{y}",
-			"A = 'a' {\n}", "A = 'a' {}", "A = &{\n} 'a'", "A = #{\n} 'a'", "{\n}\nA = 'a' {\n}", "A = 'a' {\n\n}", "A = 'a' { }"}, "tiny")), "tiny", nil
+			"A = 'a' {\n}", "A = 'a' {}", "A = &{\n} 'a'", "A = #{\n} 'a'", "{\n}\nA = 'a' {\n}", "A = 'a' {\n\n}", "A = 'a' { }",
+			// hyphens next to class escapes and ranges (every one of them a legal class)
+			"A = [a-\\pL]", "A = [\\pL_-\\p{Nd}]*", "A = [a\\pL-z]", "A = [-\\pL-]", "A = [\\pL-]", "A = [\\pL--a]", "A = [a-c-\\pLe]i", "A = [^a-\\p{Lu}]", "A = [a-]", "A = [--]", "A = [a-c-e-g]", "A = [a-\\pL-\\pN]"}, "tiny")), "tiny", nil
 	}
 	prof := gspec.Pick(t, toolProfiles, "profile")
 	g := gspec.GrammarGen(gspec.Profile(prof)).Draw(t, "grammar")
